@@ -42,6 +42,12 @@ pub fn generate(t: &mut Tape, syn: Syntax, o: &ReqOpts, labels: &mut Vec<&'stati
                 cid += 1;
                 out.push_str(&format!("--[[ block {cid} ]]\n"));
             }
+            6 => {
+                // on the statement's own line
+                cid += 1;
+                out.push_str(&format!("--[[ i{cid} ]] "));
+                labels.push("inline-leading-comment");
+            }
             3 if o.ignores => {
                 out.push_str("-- stylua: ignore\n");
                 labels.push("ignore");
@@ -55,8 +61,13 @@ pub fn generate(t: &mut Tape, syn: Syntax, o: &ReqOpts, labels: &mut Vec<&'stati
             }
             _ => {}
         }
-        let kind = t.pick(10);
+        let mut kind = t.pick(12);
         let name = NAMES[t.pick(NAMES.len())];
+        // a statement beginning with `(` needs a `;` in front of it, or it continues the previous statement
+        let after_semicolon = out.trim_end_matches(|c: char| c == ' ' || c == '\n').ends_with(';');
+        if kind >= 10 && !after_semicolon {
+            kind = 9;
+        }
         match kind {
             0..=4 => {
                 // require
@@ -101,9 +112,17 @@ pub fn generate(t: &mut Tape, syn: Syntax, o: &ReqOpts, labels: &mut Vec<&'stati
                 out.push_str(&format!("local {name} = compute({name}, 1)"));
                 labels.push("other-statement");
             }
-            _ => {
+            9 => {
                 out.push_str(&format!("print({name})"));
                 labels.push("other-statement");
+            }
+            10 => {
+                out.push_str(&format!("({name}).x = 1"));
+                labels.push("paren-start-statement");
+            }
+            _ => {
+                out.push_str(&format!("({name})(1)"));
+                labels.push("paren-start-statement");
             }
         }
         if t.chance(50) {
